@@ -14,11 +14,14 @@ type Iterator struct {
 
 func (db *DB) NewIterator(opts IteratorOptions) *Iterator {
 	indexIter := db.index.Iterator(opts.Reverse)
-	return &Iterator{
+	it := &Iterator{
 		db:        db,
 		indexIter: indexIter,
 		options:   opts,
 	}
+	// 新建的迭代器同样需要定位到首个满足前缀条件的元素, 否则未调用 Rewind 时首个 key 可能不满足前缀
+	it.skipToNext()
+	return it
 }
 
 // Rewind 迭代器重置回到起点
